@@ -61,3 +61,15 @@ func withConditionalHeaders(req *http.Request, storedHdr http.Header) *http.Requ
 	}
 	return req
 }
+
+// validatesStored reports whether a 304 to req - a request built by
+// [withConditionalHeaders] - is about the stored response: the origin
+// evaluates If-None-Match, and If-Modified-Since only in its absence
+// (RFC 9110 §13.2.2), so the deciding precondition must be one copied from
+// the stored validators rather than one the client sent.
+func validatesStored(req *http.Request, storedHdr http.Header) bool {
+	if storedHdr.Get("ETag") != "" {
+		return true // If-None-Match was set from it
+	}
+	return storedHdr.Get("Last-Modified") != "" && req.Header.Get("If-None-Match") == ""
+}
